@@ -237,6 +237,14 @@ void t_recv(Src &s, Case &c, Kind k)
 {
     const Alphabet &a = k == K_V1 ? kV1 : kV0;
     size_t cap = g_large ? (size_t)(s.coin() ? s.range(250, 262) : s.range(508, 516)) : (size_t)(s.coin() ? s.range(2, 12) : s.range(2, 48));
+    // 64 KiB class of the large target: capacities that do not fit 16 bits; frames stay ordinary (<= 300 bytes, all fit)
+    size_t paymax = cap + 3;
+    if (g_large && s.below(5) == 0)
+    {
+        cap = (size_t)s.pick<uint32_t>({65535, 65536, 65537, 65538, 70000, 131072, 131073});
+        paymax = 300;
+        c.label("capacity>=65535");
+    }
     const uint8_t marks[6] = {a.start, a.stop, a.stub, a.c_start, a.c_stop, a.c_stub};
     Bytes stream;
     int nseg = (int)s.range(1, g_large ? 5 : 8);
@@ -258,7 +266,7 @@ void t_recv(Src &s, Case &c, Kind k)
             break;
         case 2: // well-formed frame (may or may not fit)
         {
-            Bytes p = gen_payload(s, a, cap + 3);
+            Bytes p = gen_payload(s, a, paymax);
             if (p.size() + 1 > cap - 1)
                 overlong = true;
             else if (fault_or_noise)
@@ -267,7 +275,7 @@ void t_recv(Src &s, Case &c, Kind k)
             if (s.below(3) == 0)
             {
                 // back to back
-                Bytes q = gen_payload(s, a, cap > 3 ? cap - 3 : 0);
+                Bytes q = gen_payload(s, a, std::min(paymax, cap > 3 ? cap - 3 : 0));
                 append_frame(a, q, stream);
                 c.label("back_to_back");
             }
@@ -275,7 +283,7 @@ void t_recv(Src &s, Case &c, Kind k)
         }
         case 3: // a frame with one fault
         {
-            Bytes p = gen_payload(s, a, cap + 1);
+            Bytes p = gen_payload(s, a, std::min(paymax, cap + 1));
             Bytes f = ref_frame(a, p);
             size_t at = (size_t)s.below(f.size());
             switch (s.below(7))
@@ -450,7 +458,7 @@ void t_recv_enum(Src &s, Case &c)
 } // namespace
 
 VP_TARGET("recv_large", t_recv_large,
-          "all three receivers with capacity 250..262 / 508..516: 1..5 segments of the same kinds as recv_cfg, payload lengths up to capacity+3 and "
+          "all three receivers with capacity 250..262 / 508..516 (one case in five: 65535..65538, 70000, 131072, 131073 with frames of at most 300 bytes): 1..5 segments of the same kinds as recv_cfg, payload lengths up to capacity+3 and "
           "concentrated within 8 bytes of it (frames that just fit / just do not fit a buffer longer than 255 bytes); same four predicates");
 VP_TARGET("recv_cfg", t_recv_cfg,
           "configurable receiver, both alphabets, capacity 2..48: stream <= 400 bytes built from noise (uniform / marker-heavy), "
